@@ -393,8 +393,10 @@ def plan(t, ctx, depth=0, tvmap=None):
             ctx.rec[ti.type] -= 1
         return Obj(ti.type, fields)
     if k == "namedtuple":
+        tvmap = tinfo.scope(ti, tvmap)
         return Obj(ti.type, [(n, plan(ft, ctx, depth + 1, tvmap)) for n, ft in tinfo.nt_fields(ti.type)])
     if k == "typeddict":
+        tvmap = tinfo.scope(ti, tvmap)
         hints, req, opt = tinfo.td_keys(ti.type)
         r = [(kk, plan(hints[kk], ctx, depth + 1, tvmap)) for kk in req]
         o = []
